@@ -106,6 +106,7 @@ def main(ctx):
                                 ops.append(("create", delim, hk, k))
                     for k in KS:
                         ops.append(("append", k))
+                    ops.append(("append", 4, None, "2d"))       # a chunk of shape (2,2): its 4 elements are 4 rows
                     if m["exists"] and not m["empty"]:
                         # the delim keyword of an append / re-open of an EXISTING file: the header's delimiter wins
                         ops.append(("append", 1, ","))
@@ -124,6 +125,7 @@ def main(ctx):
                     for k in KS:
                         ops.append(("hwrite", k, 0))
                     ops.append(("hwrite", 1, 2))
+                    ops.append(("hwrite", 4, 0, "2d"))
                 if not h["first"]:
                     for kind in HBAD:
                         ops.append(("hwrite_bad", kind))
@@ -182,6 +184,12 @@ def main(ctx):
             m = dict(exists=False, delim=None, hdr=None, n=0, empty=False)
             h = None       # model of the open handle: dict(mode, first)
             sf = None
+            badcache = {}  # the SAME incompatible array object is offered again when a history retries a bad write
+
+            def bad_chunk_obj(kind):
+                if kind not in badcache:
+                    badcache[kind] = bad_chunk(dk, kind, m["n"])
+                return badcache[kind]
             try:
                 for i, op in enumerate(hist):
                     last = i == len(hist) - 1
@@ -196,7 +204,9 @@ def main(ctx):
                         if m["exists"] and m["empty"]:
                             # an empty file (opened 'w', nothing written) is outside the statement
                             return None
-                        if len(op) > 2:
+                        if len(op) > 3:
+                            sfile.write(fn, chunk(dk, start, nk).reshape(2, 2), append=True)
+                        elif len(op) > 2:
                             sfile.write(fn, chunk(dk, start, nk), append=True, delim=op[2])
                         else:
                             sfile.write(fn, chunk(dk, start, nk), append=True)
@@ -209,7 +219,7 @@ def main(ctx):
                         if m["empty"]:
                             return None
                         before = filebytes(fnr)
-                        c = bad_chunk(dk, kind, m["n"])
+                        c = bad_chunk_obj(kind) if kind != "order" else bad_chunk(dk, kind, m["n"])
                         ok_for_text = kind == "order" and m["delim"] is not None
                         try:
                             sfile.write(fn, c, append=True)
@@ -240,8 +250,9 @@ def main(ctx):
                         else:
                             h = dict(mode="r+", first=False)
                     elif k == "hwrite":
-                        _, nk, hk = op
-                        sf.write(chunk(dk, m["n"], nk), header=HDRS[hk])
+                        nk, hk = op[1], op[2]
+                        ck = chunk(dk, m["n"], nk)
+                        sf.write(ck.reshape(2, 2) if len(op) > 3 else ck, header=HDRS[hk])
                         if h["first"]:
                             m["hdr"] = HDRS[hk]
                         h["first"] = False
@@ -249,7 +260,7 @@ def main(ctx):
                         m["empty"] = False
                     elif k == "hwrite_bad":
                         kind = op[1]
-                        c = bad_chunk(dk, kind, m["n"])
+                        c = bad_chunk_obj(kind) if kind != "order" else bad_chunk(dk, kind, m["n"])
                         ok_for_text = kind == "order" and m["delim"] is not None
                         try:
                             sf.write(c)
@@ -294,8 +305,15 @@ def main(ctx):
                         sf.close()
                     except Exception:
                         pass
-            # when a handle was open we closed it for cleanup only: the bytes now on disk are
-            # a function of the history, so they can be part of the key as well
+            # a handle that was still open has just been closed (always a legitimate next step): the file must
+            # now equal the model, also when the history ended in the middle of writing
+            if h is not None and m["exists"] and not m["empty"]:
+                try:
+                    if check_file(hist, rec, fn, m, fnr) is not True:
+                        return None
+                except Exception as e:
+                    rec.fail(hist, "reading the file back after closing the open handle raised %s: %s" % (type(e).__name__, str(e)[:200]))
+                    return None
             raw = filebytes(fnr)
             key = (hashlib.sha1(raw).hexdigest() if raw is not None else None, hstate,
                    m["exists"], m["delim"], repr(m["hdr"]), m["n"], m["empty"],
@@ -523,6 +541,18 @@ def main(ctx):
                     pass
             else:
                 hstates.append(None)
+        # the handles still open were closed just now (closing is always a legitimate next step): every file that
+        # holds data must now equal its model, also the ones that were being written when the history ended
+        if msg is None:
+            for f in (0, 1):
+                if hs[f] is not None and ms[f]["exists"] and not ms[f]["empty"]:
+                    try:
+                        r = check_file2(fns[f], FDK[f], ms[f])
+                    except Exception as e:
+                        r = "reading it back raised %s: %s" % (type(e).__name__, str(e)[:200])
+                    if r:
+                        msg = "file %d (dtype %s), after closing the handle that was still open at the end of the history: %s" % (f, FDK[f], r)
+                        break
         raws = []
         for fn in fns:
             raws.append(hashlib.sha1(open(fn, "rb").read()).hexdigest() if os.path.exists(fn) else None)
